@@ -1,7 +1,56 @@
-(** C18 - arguments reach resolvers exactly as sent, by literal or by variable. *)
+(** C18 - arguments reach resolvers exactly as sent, by literal or by variable.
+
+    Model: Args/Model.v ([vtj] = valueToJson, [apply_defaults], [parse] = the argParsers of
+    schemabuilder/input.go, [prepare]/[step] = Parse + PrepareQuery before Execute).
+    Vocabulary of the statements: Args/Spec.v ([wf_ty], [sendable], [json_of], [lit_of], [renders],
+    [mismatch], [required]).  The third-party decoders (base64, time.Parse, UnmarshalText) are
+    universally quantified functions; their encoders only have to satisfy the round-trip hypotheses
+    written in each statement (instantiated at the end of the file). *)
 From Coq Require Import List ZArith String.
-From Thunder Require Import Lib.Json Args.Model Args.Proofs.
+From Thunder Require Import Lib.Json Args.Model Args.Spec Args.Proofs.
 Import ListNotations.
+Local Open Scope Z_scope.
+
+(** Literal transport: for every well-formed argument type and every value in range (integers within
+    their width and |z| <= 2^53, float32 with a 24-bit significand), the literal written into the
+    query text converts (valueToJson) and the argument parser returns exactly the value sent. *)
+Theorem literal_transport :
+  forall (b64 : string -> option (list Z)) (tdec : string -> option tval) (xdec : string -> option string)
+         (b64e : list Z -> string) (tenc : tval -> string) (xenc : string -> string)
+         (time_ok : tval -> Prop) (text_ok : string -> Prop),
+    (forall b, bytes_ok b -> b64 (b64e b) = Some b) ->
+    (forall x, time_ok x -> tdec (tenc x) = Some x) ->
+    (forall s, text_ok s -> xdec (xenc s) = Some s) ->
+    forall (nullvar : string) (vars : list (string * jv)),
+      lookup nullvar vars = None \/ lookup nullvar vars = Some VNull ->
+      forall (t : ty) (v : gv),
+        wf_ty t -> sendable time_ok text_ok t v ->
+        exists j, vtj vars (lit_of b64e tenc xenc nullvar t v) = Ok j /\ parse b64 tdec xdec t j = Ok v.
+Proof. exact Proofs.literal_roundtrip. Qed.
+Print Assumptions literal_transport.
+
+(** Variable transport: the same value supplied as JSON through a variable parses to the value sent ... *)
+Theorem variable_transport :
+  forall (b64 : string -> option (list Z)) (tdec : string -> option tval) (xdec : string -> option string)
+         (b64e : list Z -> string) (tenc : tval -> string) (xenc : string -> string)
+         (time_ok : tval -> Prop) (text_ok : string -> Prop),
+    (forall b, bytes_ok b -> b64 (b64e b) = Some b) ->
+    (forall x, time_ok x -> tdec (tenc x) = Some x) ->
+    (forall s, text_ok s -> xdec (xenc s) = Some s) ->
+    forall (t : ty) (v : gv),
+      wf_ty t -> sendable time_ok text_ok t v ->
+      parse b64 tdec xdec t (json_of b64e tenc xenc t v) = Ok v.
+Proof. exact Proofs.variable_roundtrip. Qed.
+Print Assumptions variable_transport.
+
+(** ... and more generally every rendering of a value - members in any order, null members written or
+    left out, unknown members present, any representation of a number whose integer part is the value -
+    parses to that value (no hypothesis on the type or on the decoders). *)
+Theorem every_rendering_parses :
+  forall b64 tdec xdec (t : ty) (v : gv) (j : jv),
+    renders b64 tdec xdec t v j -> parse b64 tdec xdec t j = Ok v.
+Proof. exact Proofs.renders_parse. Qed.
+Print Assumptions every_rendering_parses.
 
 (** Rejections happen in the prepare phase: in every run of the two-phase machine (any number of
     resolver steps in any order), a request whose preparation fails - a literal that does not convert,
